@@ -47,7 +47,8 @@ class TrackerUpdate(Job):
     def inputs(self):
         d = {k: z3.Int(k) for k in TU}
         n = d["hi"] - d["lo"] + 1
-        pre = [d["lo"] >= 0, d["hi"] <= 255, d["lo"] < d["hi"], d["sp"] >= d["lo"], d["sp"] <= d["hi"],
+        pre = [d["lo"] >= 0, d["hi"] <= 255, d["lo"] < d["hi"], n <= 255,   # the partition count is computed in u8
+               d["sp"] >= d["lo"], d["sp"] <= d["hi"],
                d["epp"] >= 1, d["epp"] <= 1 << 40, d["se"] >= 0, d["se"] <= 1 << 62,
                d["nxt"] >= d["se"], d["nxt"] <= (1 << 62) + (1 << 50),
                # the expiry epoch is covered by the tracker (guaranteed by validation: `expect` in the code) and the
